@@ -111,8 +111,9 @@ def u_sig(c):
     params = types.SimpleNamespace(items=lambda: list(zip(names, values))) if isinstance(host, SStr) else dict(zip(names, values))
     utf8 = lambda v: SStr(v.t, True) if isinstance(v, SStr) else E.__dict__["utf8"](v)      # noqa: E731   (UTF-8 of the all-ASCII key / base string is the identity)
     real_utf8 = E.utf8
+    real_urlsplit = urllib.parse.urlsplit
     quote = lambda v, safe="/": _ENC(c, v)      # noqa: E731
-    with c.patched((A, "_oauth_escape", lambda v: _ENC(c, v)), (urllib.parse, "quote", quote), (urllib.parse, "urlsplit", lambda u: (scheme, netloc, path, "", "")),
+    with c.patched((A, "_oauth_escape", lambda v: _ENC(c, v)), (urllib.parse, "quote", quote), (urllib.parse, "urlsplit", lambda u, *a, **kw: urllib.parse.SplitResult(scheme, netloc, path, "", "") if u == "<url>" else real_urlsplit(u, *a, **kw)),
                    (A, "hmac", types.SimpleNamespace(new=rec.new)), (E, "utf8", lambda v: SStr(v.t, True) if isinstance(v, SStr) else real_utf8(v))):
         out = c.call(c.fn(M, which), {"key": "ck", "secret": cs}, method, "<url>", params, {"key": "tk", "secret": ts} if has_token else None)
     c.only_raises(out, ())
@@ -167,7 +168,7 @@ def standin(tier, seed):
             return "".join(rng.choice("abcxyz_0123456789") for _ in range(rng.randint(max(lo, 1), hi)))
         return "".join(rng.choice(PIECES) for _ in range(rng.randint(lo, hi)))
     SCHEMES = ["http", "https", "HTTP", "Https"]
-    HOSTS = ["example.com", "API.Example.COM", "localhost", "photos.example.net", "127.0.0.1", "X"]
+    HOSTS = ["example.com", "API.Example.COM", "localhost", "photos.example.net", "127.0.0.1", "X", "[2001:DB8::1]", "[::1]", "xn--nxasmq6b.example"]
     PATHS = ["/", "/request_token", "/r%20v/X", "/a/B/c", "/oauth/Access~Token", "/p;x=1", "/a+b", "/ü".encode("utf-8").decode("latin1") and "/%C3%BC"]
     for i in range(N):
         which = rng.choice(["_oauth_signature", "_oauth10a_signature"])
